@@ -22,7 +22,7 @@ pub open spec fn only_tracker(o: World, n: World) -> bool {
 //@path std::thread::sleep => shim_sleep
 //@path std::time::Duration::from_millis => shim_millis
 //@guards .get_writer( param:journal_writer
-//@world is_deleted.load drop writer.lock tree.flush tree.compact tree.major_compact tree.rotate_memtable
+//@world is_deleted.load drop writer.lock tree.flush tree.compact tree.major_compact tree.rotate_memtable inner.finish
 
 pub struct Task { pub keyspace: Keyspace }                     // src/flush/task.rs (fields)
 pub struct Stats { pub active_compaction_count: StatCounter, pub time_compacting: StatCounter, pub compactions_completed: StatCounter }
@@ -77,6 +77,11 @@ impl WriteBufferManager {
 
 //@extract src/keyspace/mod.rs :: Keyspace :: rotate_memtable world props=C01+C06
 //@contract-file fn/ks_rotate_memtable.c
+//@end
+
+pub struct Ingestion<'a> { pub keyspace: &'a Keyspace, pub inner: AnyIngestion }   // src/ingestion.rs (fields; AnyIngestion<'a> lifetime dropped)
+//@extract src/ingestion.rs :: Ingestion<'a> :: finish world props=C01+C04+C06
+//@contract-file fn/ingest_finish.c
 //@end
 
 //@extract src/keyspace/mod.rs :: Keyspace :: major_compact world props=C01+C05+C06+C18
